@@ -31,7 +31,7 @@ class PoolGen:
         self.linked = {}
         self.w = dict(sleep=10, update=30, peer=12, reconnect=5, close=3, reopen=3, addnode=4, withdraw=3,
                       deposit=2, forged=8, mode=3, credit=2, stale=2, account=1, legacy=2, client=1, host=1, stats=1,
-                      settlemode=1, burst=0, sburst=0, wburst=0, status=2, forgedrun=1, connectdrop=0, replay=3)
+                      settlemode=1, burst=0, sburst=0, wburst=0, status=2, forgedrun=1, connectdrop=0, replay=3, threeconns=0, stalepeer=0)
         if weights:
             self.w.update(weights)
         self.captured = []
@@ -247,6 +247,54 @@ class PoolGen:
             else:
                 self.connect(ident)
 
+    def threeconns(self):
+        """a host on three connections in a row: c1, then c2, c2 closes, then c3 - and only then the long superseded c1
+        closes: the host stays registered on c3"""
+        r = self.r
+        h = r.choice(HOSTS)
+        conns = []
+        for step in range(3):
+            k = self.open_conn(mode="ack")
+            if k is None:
+                break
+            conns.append(k)
+            self.home[h] = k
+            self.used_by_host[k] = h
+            op = {"op": "Connect", "conn": k, "full": True, "kind": "geth", "payout": "", "uri": "", "ver": "v"}
+            self.emit(self.signed(op, h))
+            self.connected.add(h)
+            self.full[h] = True
+            if step == 1:      # the second one closes before the third is opened
+                self.emit({"op": "Close", "conn": k})
+                del self.open[k]
+                self.used_by_host.pop(k, None)
+        if len(conns) == 3:
+            self.emit({"op": "Close", "conn": conns[0]})
+            del self.open[conns[0]]
+            self.used_by_host.pop(conns[0], None)
+            self.home[h] = conns[2]
+        c = r.choice(CLIENTS)
+        if c not in self.connected:
+            self.connect(c, full=False)
+        self.peer(c)
+
+    def stalepeer(self):
+        """a client reports a host whose own last check-in is almost two minutes old; the host then checks in; a little
+        later the client asks for peers: the host is still its peer and must not be offered (or instructed) again"""
+        r = self.r
+        if self.race:
+            return
+        K = self.K
+        h, c = r.choice(HOSTS), r.choice(CLIENTS)
+        self.connect(h, full=True)
+        self.emit({"op": "Mode", "conn": self.conn_for(h), "mode": "ack"})
+        self.sleep(r.choice([117, 118, 119]) * K)
+        self.connect(c, full=False)
+        self.emit(self.signed({"op": "Update", "conn": self.conn_for(c), "peers": [h], "block": 1}, c))
+        self.emit(self.signed({"op": "Update", "conn": self.conn_for(h), "peers": [c], "block": 1}, h))
+        self.sleep(r.choice([2, 3, 5]) * K)
+        self.emit(self.signed({"op": "Peer", "conn": self.conn_for(c), "num": r.choice([1, 2, 3]), "kind": r.choice(["", "geth"])}, c))
+
     def forgedrun(self):
         """a run of 1..13 refused requests naming ONE identity (forged in different ways on different endpoints, stale
         replays among them), then the owner's own request: however many were refused, nothing of them may remain"""
@@ -450,6 +498,10 @@ class PoolGen:
             self.stale()
         elif kind == "forgedrun":
             self.forgedrun()
+        elif kind == "threeconns":
+            self.threeconns()
+        elif kind == "stalepeer":
+            self.stalepeer()
         elif kind == "replay":
             # a captured request sent again, byte for byte, possibly much later and after other identities acted
             if self.captured:
